@@ -49,6 +49,13 @@ def run(ctx):
         if ml and c != r:
             ctx.violation("multi-line search differs from the specification (lines covered by successive find_at matches)",
                           dict(kind=1301, line=line, case=sg.describe(case), code=c, ref=r))
+    # the multi-line heap buffer is kept by the Searcher between searches: a reused Searcher must behave like a fresh one
+    ridx = list(range(0, len(lines), 4))
+    fresh, reused = vlib.code(204, [lines[i] for i in ridx]), vlib.code(205, [lines[i] for i in ridx])
+    for i, a, b in zip(ridx, fresh, reused):
+        if a != b:
+            ctx.violation("a reused Searcher (multi-line, reader input) delivers different results than a fresh one",
+                          dict(kind=205, line=lines[i], case=sg.describe(cases[i]), fresh=a, reused=b))
     regex_cases(ctx, feat)
     cli_strategies(ctx)
     ctx.cov["features"] = feat
